@@ -12,7 +12,7 @@
    the non-input nodes.  Duplicate rows are allowed (they add up).  sm_same n = all softmax
    nodes have the same sorted source tuple (what C13 proves for library-built nets).            *)
 From TF Require Import Base Net NetAlgebra NetOrder NetForward NetProofs NetProofs2 NetOrderProofs
-     NetForwardProofs NetForwardProofs2 C12Check NetForwardQc.
+     NetForwardProofs NetForwardProofs2 C12Check NetForwardQc NetMLPProofs NetMLPProofs2.
 From Coq Require Import Permutation Qcanon.
 Local Open Scope nat_scope.
 
@@ -74,7 +74,21 @@ Section C12.
     (forall v, In v (n_in n ++ hidden n ++ n_out n) -> v < length garbage) ->
     net_forward (order_fuel n') n' garbage x [w'] = net_forward (order_fuel n) n garbage x [w].
   Proof. intros. apply order_irrelevant; auto. Qed.
+  (* consequently, for EVERY net the (repaired) MLP builder produces — any number of hidden layers,
+     any sizes >= 1, offset on/off, hidden activation other than softmax — Net.forward equals the
+     reference evaluation, with a buffer of n_inputs + sum(hidden) + n_outputs nodes *)
+  Theorem C12_mlp_forward_is_ref : forall ni no hs act offset oact garbage x ws,
+    1 <= ni -> 1 <= no -> Forall (fun h => 1 <= h) hs -> act <> 5 ->
+    ni + list_sum hs + no <= length garbage ->
+    exists r, define_net true ni no hs act offset oact = Some r /\
+      net_forward (order_fuel r) r garbage x ws = Some (map (fun w => ref_eval r w x) ws).
+  Proof.
+    intros ni no hs a offset oact garbage x ws H1 H2 H3 H4 H5.
+    destruct (mlp_premises ni no hs a offset oact H1 H2 H3 H4) as [r [E [L [S B]]]].
+    exists r. split; auto. apply forward_is_ref; auto. intros v Hv. specialize (B v Hv). lia.
+  Qed.
 End C12.
+Print Assumptions C12_mlp_forward_is_ref.
 Print Assumptions C12_batch_rows_independent.
 Print Assumptions C12_history_independent.
 Print Assumptions C12_forward_shape.
@@ -104,7 +118,21 @@ Proof.
 Qed.
 Print Assumptions C12_premises_b_sound.
 
-(* MLP builder nets meet the premises: proved only as a bounded sweep (bound in the name) — hidden
+(* EVERY net built by the repaired MLP builder meets the premises of C12_forward_is_ref: any number
+   of hidden layers, any sizes >= 1, n_inputs >= 1, n_outputs >= 1, offset on/off, any output
+   activation, any hidden activation other than softmax (a softmax hidden layer next to another
+   softmax layer would violate sm_same; the estimators' default and documented use is 0..4):
+   Layered, all softmax nodes share one sorted source tuple, ids inside a buffer of
+   n_inputs + sum(hidden) + n_outputs nodes *)
+Theorem C12_mlp_premises : forall ni no hs act offset oact,
+  1 <= ni -> 1 <= no -> Forall (fun h => 1 <= h) hs -> act <> 5 ->
+  exists r, define_net true ni no hs act offset oact = Some r /\
+    Layered r /\ sm_same r /\
+    (forall v, In v (n_in r ++ hidden r ++ n_out r) -> v < ni + list_sum hs + no).
+Proof. exact mlp_premises. Qed.
+Print Assumptions C12_mlp_premises.
+
+(* SUPERSEDED by C12_mlp_premises (kept as a regression of the boolean checker): bounded sweep — hidden
    tuples of <= 3 layers with sizes 1..3, n_inputs 1..4, n_outputs 1..3, offset on/off *)
 Theorem C12_mlp_premises_sweep_3layers_size3_in4_out3 : mlp_premises_sweep = true.
 Proof. exact mlp_premises_sweep_3layers_size3_in4_out3. Qed.
